@@ -271,6 +271,14 @@ fn verif_replay_event(header: &WalFrameHeader, page_data: &[u8]) {
 }
 
 pub fn validate_checksum(header: &WalFrameHeader, page_data: &[u8]) -> bool {
+    // CRC-64/ECMA-182 starts from 0, so an all-zero header followed by an all-zero page has the
+    // checksum 0 it stores: a file hole or a zero-filled tail would pass as a frame that zeroes
+    // page 0 of file 0. A written frame carries the log's salts, so zero salts together with a
+    // zero checksum mean "never written".
+    if header.checksum == 0 && header.salt1 == 0 && header.salt2 == 0 {
+        return false;
+    }
+
     let computed = compute_checksum(header, page_data);
     computed == header.checksum
 }
